@@ -87,8 +87,9 @@ Proof.
   destruct (le_lt_dec m (k * c)) as [Hle|Hlt].
   - rewrite !Nat.min_l by lia. replace (m - k * c) with 0 by lia. simpl. now rewrite app_nil_r.
   - rewrite (Nat.min_r m (k * c)) by lia.
-    replace (min m (k * c + c)) with (k * c + (min m (k * c + c) - k * c)) at 2 by lia.
-    now rewrite seq_app.
+    set (r := min m (k * c + c) - k * c).
+    assert (E : min m (c + k * c) = k * c + r) by (unfold r; lia).
+    rewrite E, seq_app. reflexivity.
 Qed.
 Lemma ceil_div_covers m c : 1 <= c -> m <= ceil_div m c * c.
 Proof.
@@ -270,3 +271,200 @@ Proof.
 Qed.
 End Call.
 End Real.
+
+(* ---------------------------------------------------------------- consequences *)
+Lemma size_unb (S : KSys R) : ks_unb S = true -> (ks_n S < ks_size S)%nat.
+Proof. intros Hu. unfold ks_size, ks_u. rewrite Hu. lia. Qed.
+
+Section Consequences.
+Variable S : KSys R.
+Variable Q : KTgt R.
+Variable Kinv : list (list R).
+Notation N := (ks_size S).
+Notation n := (ks_n S).
+Notation K := (kmat_entry Rops S).
+Notation Ki := (mat_of Kinv).
+Hypothesis HN : shape0 Kinv = N.
+Variable chunk : nat.
+Hypothesis Hc : (1 <= chunk)%nat.
+Hypothesis H0 : (0 < N)%nat.
+Notation fieldv cond t := (aget 0 (fst (krige_raw Rops S Q Kinv cond chunk)) t).
+Notation errv cond t := (aget 0 (snd (krige_raw Rops S Q Kinv cond chunk)) t).
+
+(* the estimate is linear in the prepared data, whatever Kinv is *)
+Theorem linear_in_data c1 c2 c3 a b t : (t < kt_m Q)%nat ->
+  (forall i, (i < N)%nat -> vec_of c3 i = a * vec_of c1 i + b * vec_of c2 i) ->
+  fieldv c3 t = a * fieldv c1 t + b * fieldv c2 t.
+Proof.
+  intros Ht H. rewrite !(raw_field_t S Q Kinv HN _ chunk Hc H0 t Ht).
+  rewrite <- dot_lin_l. apply dot_ext; auto. intros i Hi; reflexivity.
+Qed.
+(* the error term does not depend on the data at all *)
+Theorem error_data_free c1 c2 t : (t < kt_m Q)%nat -> errv c1 t = errv c2 t.
+Proof. intros Ht. now rewrite !(raw_err_t S Q Kinv HN _ chunk Hc H0 t Ht). Qed.
+
+Lemma kmat_low_row r j : (n <= r)%nat -> (n <= j)%nat -> K r j = 0.
+Proof.
+  intros Hr Hj. unfold kmat_entry.
+  destruct (Nat.ltb_spec r n); [lia|]. destruct (Nat.ltb_spec j n); [lia|]. reflexivity.
+Qed.
+
+(* rows n..N-1 of the system (unbiasedness and drift rows) are reproduced *)
+Lemma row_identity t r : meq N (mmul N K Ki) delta -> (n <= r < N)%nat ->
+  sumf n (fun i => K r i * lam_at S Q Kinv t i) = rhs_entry Rops S Q r t.
+Proof.
+  intros HR Hr. pose proof (lam_solves S Q Kinv t HR r ltac:(lia)) as E. unfold mvec, rhs_col in E.
+  replace N with (n + (N - n))%nat in E at 1 by lia.
+  rewrite sumf_split in E. rewrite (sumf_zero_ext (N - n)) in E.
+  2:{ intros k Hk. rewrite kmat_low_row by lia. ring. }
+  rewrite <- E. ring.
+Qed.
+Theorem reproduces_row cond t r c : (t < kt_m Q)%nat -> meq N (mmul N K Ki) delta -> (n <= r < N)%nat ->
+  (forall i, (i < n)%nat -> vec_of cond i = c * K r i) ->
+  (forall i, (n <= i < N)%nat -> vec_of cond i = 0) ->
+  fieldv cond t = c * rhs_entry Rops S Q r t.
+Proof.
+  intros Ht HR Hr Hd Hz. rewrite (raw_field_t S Q Kinv HN _ chunk Hc H0 t Ht). unfold dot.
+  replace N with (n + (N - n))%nat at 1 by lia.
+  rewrite sumf_split. rewrite (sumf_zero_ext (N - n)).
+  2:{ intros k Hk. rewrite Hz by lia. ring. }
+  rewrite <- (row_identity t r HR Hr), <- sumf_scal, Rplus_0_r.
+  apply sumf_ext. intros i Hi. rewrite Hd by auto. ring.
+Qed.
+
+Lemma kmat_unb_row i : ks_unb S = true -> (i < n)%nat -> K n i = 1.
+Proof.
+  intros Hu Hi. unfold kmat_entry, ks_u. rewrite Hu.
+  destruct (Nat.ltb_spec n n); [lia|]. destruct (Nat.ltb_spec i n); [|lia].
+  destruct (Nat.ltb_spec n (n + 1)); [reflexivity|lia].
+Qed.
+Lemma rhs_unb_row t : ks_unb S = true -> rhs_entry Rops S Q n t = 1.
+Proof.
+  intros Hu. unfold rhs_entry, ks_u. rewrite Hu.
+  destruct (Nat.ltb_spec n n); [lia|]. destruct (Nat.ltb_spec n (n + 1)); [reflexivity|lia].
+Qed.
+
+(* unbiased variants: constant (prepared) data give back the constant *)
+Theorem reproduces_constants_raw cond t c : (t < kt_m Q)%nat -> meq N (mmul N K Ki) delta ->
+  ks_unb S = true ->
+  (forall i, (i < n)%nat -> vec_of cond i = c) -> (forall i, (n <= i < N)%nat -> vec_of cond i = 0) ->
+  fieldv cond t = c.
+Proof.
+  intros Ht HR Hu Hd Hz. pose proof (size_unb S Hu).
+  rewrite (reproduces_row cond t n c Ht HR ltac:(lia)); auto.
+  - rewrite rhs_unb_row by auto. ring.
+  - intros i Hi. rewrite kmat_unb_row, Hd by auto. ring.
+Qed.
+
+(* data equal to drift l (functional or external) at the conditioning points give back drift l at the target *)
+Lemma kmat_drift_row l i : (l < ks_p S)%nat -> (i < n)%nat ->
+  K (n + ks_u S + l) i = aget2 0 (ks_drifts S) l i.
+Proof.
+  intros Hl Hi. unfold kmat_entry.
+  destruct (Nat.ltb_spec (n + ks_u S + l) n); [lia|]. destruct (Nat.ltb_spec i n); [|lia].
+  destruct (Nat.ltb_spec (n + ks_u S + l) (n + ks_u S)); [lia|].
+  replace (n + ks_u S + l - n - ks_u S)%nat with l by lia. reflexivity.
+Qed.
+Lemma rhs_drift_row l t : rhs_entry Rops S Q (n + ks_u S + l) t = aget2 0 (kt_drifts Q) l t.
+Proof.
+  unfold rhs_entry.
+  destruct (Nat.ltb_spec (n + ks_u S + l) n); [lia|].
+  destruct (Nat.ltb_spec (n + ks_u S + l) (n + ks_u S)); [lia|].
+  replace (n + ks_u S + l - n - ks_u S)%nat with l by lia. reflexivity.
+Qed.
+Theorem reproduces_drifts cond t l c : (t < kt_m Q)%nat -> meq N (mmul N K Ki) delta -> (l < ks_p S)%nat ->
+  (forall i, (i < n)%nat -> vec_of cond i = c * aget2 0 (ks_drifts S) l i) ->
+  (forall i, (n <= i < N)%nat -> vec_of cond i = 0) ->
+  fieldv cond t = c * aget2 0 (kt_drifts Q) l t.
+Proof.
+  intros Ht HR Hl Hd Hz.
+  rewrite (reproduces_row cond t (n + ks_u S + l) c Ht HR); auto.
+  - now rewrite rhs_drift_row.
+  - unfold ks_size. lia.
+  - intros i Hi. rewrite kmat_drift_row, Hd by auto. reflexivity.
+Qed.
+End Consequences.
+
+(* ---------------------------------------------------------------- the full pipeline *)
+Lemma krige_cond_vec nr val tr mn pad i :
+  vec_of (krige_cond Rops nr val tr mn pad) i =
+  if (i <? length val)%nat then nr (aget 0 val i - aget 0 tr i) - aget 0 mn i else 0.
+Proof.
+  unfold vec_of, krige_cond, aget. destruct (Nat.ltb_spec i (length val)) as [H|H].
+  - rewrite app_nth1 by (now rewrite map_length, seq_length).
+    exact (aget_map_seq 0 _ _ i H).
+  - rewrite app_nth2 by (rewrite map_length, seq_length; lia).
+    exact (aget_repeat 0 pad _).
+Qed.
+Lemma krige_raw_length S Q Kinv cond chunk : (1 <= chunk)%nat -> (0 < ks_size S)%nat -> shape0 Kinv = ks_size S ->
+  length (fst (krige_raw Rops S Q Kinv cond chunk)) = kt_m Q /\ length (snd (krige_raw Rops S Q Kinv cond chunk)) = kt_m Q.
+Proof. intros. rewrite krige_raw_pointwise by auto. simpl. now rewrite !map_length, seq_length. Qed.
+Lemma post_field_at dn f mean trend t : (t < length f)%nat ->
+  aget 0 (post_field Rops dn f mean trend) t = dn (aget 0 f t + aget 0 mean t) + aget 0 trend t.
+Proof. intros H. unfold post_field. exact (aget_map_seq 0 _ _ t H). Qed.
+
+(* unbiased kriging of data that are constant after detrending returns that constant plus the trend at
+   the target, through normalizer and (constant) mean *)
+Theorem reproduces_constants S Q Kinv nr dn val ctrend cmean tmean ttrend chunk t v mu :
+  shape0 Kinv = ks_size S -> (1 <= chunk)%nat -> (t < kt_m Q)%nat ->
+  meq (ks_size S) (mmul (ks_size S) (kmat_entry Rops S) (mat_of Kinv)) delta ->
+  ks_unb S = true -> length val = ks_n S ->
+  (forall i, (i < ks_n S)%nat -> aget 0 val i - aget 0 ctrend i = v /\ aget 0 cmean i = mu) ->
+  aget 0 tmean t = mu -> dn (nr v) = v ->
+  aget 0 (fst (krige_call Rops S Q Kinv nr dn val ctrend cmean tmean ttrend chunk)) t = v + aget 0 ttrend t.
+Proof.
+  intros HN Hc Ht HR Hu Hl Hv Hm Hdn.
+  assert (H0 : (0 < ks_size S)%nat) by (pose proof (size_unb S Hu); lia).
+  unfold krige_call. cbn [fst].
+  rewrite post_field_at by (destruct (krige_raw_length S Q Kinv (krige_cond Rops nr val ctrend cmean (ks_u S + ks_p S)) chunk Hc H0 HN) as [L _]; now rewrite L).
+  rewrite (reproduces_constants_raw S Q Kinv HN chunk Hc H0 _ t (nr v - mu) Ht HR Hu).
+  - rewrite Hm. replace (nr v - mu + mu) with (nr v) by ring. now rewrite Hdn.
+  - intros i Hi. rewrite krige_cond_vec, Hl. destruct (Nat.ltb_spec i (ks_n S)); [|lia].
+    destruct (Hv i Hi) as [-> ->]. reflexivity.
+  - intros i Hi. rewrite krige_cond_vec, Hl. destruct (Nat.ltb_spec i (ks_n S)); [lia|reflexivity].
+Qed.
+
+(* ---------------------------------------------------------------- order of the conditioning points *)
+(* Two systems related by a bijection s of the index range (for a reordering of the conditioning points
+   s permutes 0..n-1 and fixes the unbiasedness/drift indices), each solved with ITS OWN inverse. *)
+Theorem cond_perm_invariant S S' Q Q' Kinv Kinv' cond cond' chunk chunk' (s s' : nat -> nat) t t' :
+  let N := ks_size S in
+  ks_size S' = N -> shape0 Kinv = N -> shape0 Kinv' = N -> (0 < N)%nat -> (1 <= chunk)%nat -> (1 <= chunk')%nat ->
+  (t < kt_m Q)%nat -> (t' < kt_m Q')%nat ->
+  (forall i, (i < N)%nat -> (s i < N)%nat /\ (s' i < N)%nat /\ s' (s i) = i /\ s (s' i) = i) ->
+  (forall i j, (i < N)%nat -> (j < N)%nat -> kmat_entry Rops S' (s i) (s j) = kmat_entry Rops S i j) ->
+  (forall i, (i < N)%nat -> rhs_entry Rops S' Q' (s i) t' = rhs_entry Rops S Q i t) ->
+  (forall i, (i < N)%nat -> vec_of cond' (s i) = vec_of cond i) ->
+  meq N (mmul N (kmat_entry Rops S) (mat_of Kinv)) delta ->
+  meq N (mmul N (mat_of Kinv') (kmat_entry Rops S')) delta ->
+  aget 0 (fst (krige_raw Rops S' Q' Kinv' cond' chunk')) t' = aget 0 (fst (krige_raw Rops S Q Kinv cond chunk)) t /\
+  aget 0 (snd (krige_raw Rops S' Q' Kinv' cond' chunk')) t' = aget 0 (snd (krige_raw Rops S Q Kinv cond chunk)) t.
+Proof.
+  intros N HS HN HN' H0 Hc Hc' Ht Ht' Hs HK Hk Hd HR HL'.
+  assert (HN'' : shape0 Kinv' = ks_size S') by (now rewrite HS).
+  assert (H0' : (0 < ks_size S')%nat) by (now rewrite HS).
+  rewrite (raw_field_t S' Q' Kinv' HN'' cond' chunk' Hc' H0' t' Ht'), (raw_err_t S' Q' Kinv' HN'' cond' chunk' Hc' H0' t' Ht').
+  rewrite (raw_field_t S Q Kinv HN cond chunk Hc H0 t Ht), (raw_err_t S Q Kinv HN cond chunk Hc H0 t Ht).
+  rewrite HS. fold N.
+  set (lam := lam_at S Q Kinv t).
+  set (mu := fun j => lam (s' j)).
+  assert (Hinj : forall i j, (i < N)%nat -> (j < N)%nat -> s i = s j -> i = j).
+  { intros i j Hi Hj E. destruct (Hs i Hi) as (_ & _ & A & _). destruct (Hs j Hj) as (_ & _ & B & _). congruence. }
+  assert (Hb : forall i, (i < N)%nat -> (s i < N)%nat) by (intros i Hi; apply (Hs i Hi)).
+  assert (Hmu : veq (ks_size S') (mvec (ks_size S') (kmat_entry Rops S') mu) (rhs_col S' Q' t')).
+  { rewrite HS. fold N. intros r Hr. destruct (Hs r Hr) as (_ & Hq & _ & Er). rewrite <- Er.
+    generalize dependent (s' r). intros q Hq _. clear r Hr.
+    unfold mvec, rhs_col. rewrite <- (sumf_reindex N s _ Hb Hinj). rewrite Hk by auto.
+    pose proof (lam_solves S Q Kinv t HR q Hq) as E. unfold rhs_col in E. rewrite <- E. unfold mvec. fold lam.
+    apply sumf_ext. intros j Hj. destruct (Hs j Hj) as (_ & _ & Ej & _).
+    unfold mu. rewrite Ej. now rewrite HK by auto. }
+  pose proof (lam_unique S' Q' Kinv' t' mu) as U. rewrite HS in U. fold N in U.
+  specialize (U HL'). rewrite HS in Hmu. fold N in Hmu. specialize (U Hmu).
+  split.
+  - rewrite (dot_ext N _ (vec_of cond') _ mu (fun _ _ => eq_refl) U). unfold dot.
+    rewrite <- (sumf_reindex N s _ Hb Hinj). apply sumf_ext. intros j Hj.
+    destruct (Hs j Hj) as (_ & _ & Ej & _). unfold mu. now rewrite Ej, Hd.
+  - rewrite (dot_ext N _ (rhs_col S' Q' t') _ mu (fun _ _ => eq_refl) U). unfold dot.
+    rewrite <- (sumf_reindex N s _ Hb Hinj). apply sumf_ext. intros j Hj.
+    destruct (Hs j Hj) as (_ & _ & Ej & _). unfold mu, rhs_col. now rewrite Ej, Hk.
+Qed.
